@@ -341,6 +341,16 @@ func (h *H) writeReplayLocked() {
 	os.WriteFile(h.replayPath(), append(b, '\n'), 0o644)
 }
 
+// noteCaseTime keeps the duration of the slowest case (margin to the watchdog).
+func (h *H) noteCaseTime(d time.Duration) {
+	ms := d.Milliseconds()
+	h.mu.Lock()
+	if ms > h.classes["max_case_ms"] {
+		h.classes["max_case_ms"] = ms
+	}
+	h.mu.Unlock()
+}
+
 // Failed reports whether a violation has been recorded.
 func (h *H) Failed() bool { return h.frozen.Load() }
 
@@ -427,12 +437,12 @@ func (cc *curCase) Leave() {
 }
 
 // Watchdog thresholds.  A case of any leg costs milliseconds of CPU; a case
-// that is still running after 30 s of wall time during which this process
+// that is still running after 60 s of wall time during which this process
 // burned more than 20 s of CPU is not going to return.  (Wall time alone is
 // never used: a frozen VM or a starved machine burns no CPU in this process.)
 const (
-	hangWall = 30 * time.Second
-	hangCPU  = 20 * time.Second
+	hangWall = 60 * time.Second
+	hangCPU  = 45 * time.Second
 )
 
 func (h *H) startWatch() {
@@ -536,7 +546,9 @@ func Rapid[C any](h *H, t *testing.T, gen func(*rapid.T) C, run RunFunc[C]) {
 		c := gen(rt)
 		o := &Obs{}
 		slot.Enter(c)
+		t0 := time.Now()
 		msg := Guard(func() string { return run(c, o) })
+		h.noteCaseTime(time.Since(t0))
 		slot.Leave()
 		if msg != "" {
 			p := h.Fail(c, msg)
@@ -641,7 +653,7 @@ wait:
 			break wait
 		case <-tk.C:
 			if time.Since(start) >= hangWall && cpuTime()-c0 >= hangCPU {
-				msg = "operation did not return (replay still running after 30 s wall / 20 s CPU)"
+				msg = "operation did not return (replay still running after 60 s wall / 45 s CPU)"
 				break wait
 			}
 		}
